@@ -32,7 +32,12 @@ class C07(Prop):
         rows = C.read_jsonl(p)
         races = servsched.race_reports(out)
         crashed = not any(r.get("kind") == "survived" for r in rows)
-        return {"rows": [r for r in rows if r.get("kind") == "fault"], "races": races, "crashed": crashed, "rc": rc, "tail": out[-4000:]}
+        starts = [r for r in rows if r.get("kind") == "fault-start"]
+        import re
+        m = re.search(r"^(panic: |fatal error: )", out, re.M)
+        excerpt = out[max(0, m.start() - 600):m.start() + 2500] if m else out[-4000:]
+        return {"rows": [r for r in rows if r.get("kind") == "fault"], "races": races, "crashed": crashed, "rc": rc, "tail": excerpt,
+                "in_progress": ({"config": starts[-1].get("config"), "fault": starts[-1].get("fault")} if starts else None)}
 
     def oracle(self, ctx, obs):
         res = []
@@ -40,8 +45,9 @@ class C07(Prop):
             last = obs["rows"][-1]["fault"] if obs["rows"] else None
             import re
             m = re.search(r"(panic: [^\n]*|fatal error: [^\n]*)", obs["tail"])
-            res.append(("agent-crashed:%s" % ((last or {}).get("point", "start")), "the agent process ended while faults were being injected (%s); last completed fault: %s" % (m.group(1) if m else "see output", last),
-                        {"driver": "go test -race TestVerifC07", "last_completed_fault": last, "output_tail": obs["tail"]}))
+            cur = obs.get("in_progress") or {}
+            res.append(("agent-crashed:%s" % (((cur.get("fault") or last or {}).get("point", "start"))), "the agent process ended while faults were being injected (%s); fault in progress: %s" % (m.group(1) if m else "see output", cur or last),
+                        {"driver": "go test -race TestVerifC07", "fault_in_progress": cur, "last_completed_fault": last, "output_excerpt": obs["tail"]}))
         for sig, txt in obs["races"]:
             res.append((sig, "the race detector reported a data race in the agent while faults were injected", {"report": txt}))
         for r in obs["rows"]:
